@@ -3,7 +3,7 @@ import ConcVerif.Base.TS
 real code executes: the two seq_cst flags `m_readingLeft` (`rl`) / `m_countingLeft` (`cl`), the two reader
 counters, the write mutex, and the accesses of the two payload copies (as whole-object windows).
 
-Stage A (exact program), any number of threads, sequentially consistent interleaving:
+Any number of threads, sequentially consistent interleaving.  What today's code does:
 
 * `lock_shared` (and its three `try_` forms, which are the same code):
   `ald cl` ; `rmw cnt[c] +1` ; `ald rl` ; — handle holds side `rl`, registered in counter `c` —
@@ -12,6 +12,22 @@ Stage A (exact program), any number of threads, sequentially consistent interlea
   spin { `ald cnt[¬c]` ; `yld` } until 0 ; `ast cl ¬c` ; spin { `ald cnt[c]` ; `yld` } until 0 ; `f(side l)` ; `mul wm`.
   If the first application throws: `side ¬l := side l` (roll back), `mul`, rethrow.
   If the second application throws: `side l := side ¬l` (roll forward), `mul`, rethrow.
+
+Stage B (DESIGN §3.5): readers are modelled exactly (C14 counts their steps); the WRITER is the weakest discipline
+the proofs need:
+* it holds the write mutex from `mlk` to `mul`; `l` is the value of `rl` when it took the mutex (it need not load it);
+* it applies the functor first to side `¬l` (the side the flag points away from), then stores `rl := ¬l`;
+* between that store and the second application (pc `wWait op l zL zR`) it may do anything with the flags and
+  counters — load `rl`, `cl`, either counter, store `cl`, yield, in any order and number — `zL zR` record whether
+  counter L / R has been observed at zero since the store (`zeroSeen`);
+* the second application (on side `l`), or the functor's throw that leads to the roll-forward copy onto `l`, is
+  accepted only when BOTH counters have been seen at zero since the flip;
+* redundant consistent loads are accepted everywhere between `mlk` and `mul`.
+So swapping the two wait loops, extra loads, a cached flag value, `fetch_add` for `++`, `unique_lock` for `lock_guard`
+stay accepted, while a missing wait, a wait on one counter twice, a flip before the first write, a write without the
+mutex or on the wrong side are rejected.  The choreography of `m_countingLeft` is not needed for safety; it matters for
+writer progress (C14) and is checked in *strict* mode only (`strict = true`, component `lr_strict`): a wait
+iteration — a counter load that returns non-zero — is accepted only on a counter new readers are not directed to.
 
 Payload values are ghost-free model state: `valL valR : List OpId` is the list of operation ids applied to each
 copy (the harness payload really is such a list, so the values are compared with the observed ones at every
@@ -50,18 +66,15 @@ inductive Pc
   | rdRelD                      -- deregistered, before `ret`
   -- writer
   | wCalled (op : OpId)         -- inside modify, before `mlk`
-  | wLocked (op : OpId)         -- holds the write mutex, before `ald rl`
-  | wRL (op : OpId) (l : Side)  -- loaded rl = l, before the first application (on side ¬l)
+  | wA (op : OpId) (l : Side)   -- holds the write mutex (rl = l when it was taken), before the first application (on side ¬l)
   | wF1 (op : OpId) (l : Side)  -- inside the first application
   | wF1d (op : OpId) (l : Side) -- first application complete, before `ast rl`
   | wRb (op : OpId) (l : Side)  -- first application threw, before the roll-back copy
   | wRbC (op : OpId) (l : Side) -- inside the roll-back copy  side ¬l := side l
   | wRbD (op : OpId) (l : Side) -- rolled back, before `mul`
-  | wTog (op : OpId) (l : Side) -- rl flipped, before `ald cl`
-  | wCL (op : OpId) (l c : Side)   -- first wait loop: spins on cnt[¬c]
-  | wW1 (op : OpId) (l c : Side)   -- saw cnt[¬c] = 0, before `ast cl`
-  | wTogC (op : OpId) (l c : Side) -- cl flipped; second wait loop: spins on cnt[c]
-  | wW2 (op : OpId) (l : Side)  -- saw cnt[c] = 0, before the second application (on side l)
+  | wWait (op : OpId) (l : Side) (zL zR : Bool)
+                                -- rl flipped to ¬l; waiting for the readers of side l; zL / zR: counter L / R has been
+                                -- observed at zero since the flip; the second application needs both
   | wF2 (op : OpId) (l : Side)  -- inside the second application
   | wF2d (op : OpId) (l : Side) -- second application complete, before `mul`
   | wRf (op : OpId) (l : Side)  -- second application threw, before the roll-forward copy
@@ -95,6 +108,7 @@ inductive Ev
   deriving DecidableEq, Repr
 
 structure St where
+  strict : Bool          -- configuration: also enforce the writer-progress discipline (C14)
   rl : Side
   cl : Side
   regL : List Tid
@@ -128,14 +142,14 @@ def St.setVal (s : St) (x : Side) (v : List OpId) : St :=
 
 def St.setPc (s : St) (t : Tid) (p : Pc) : St := { s with pc := upd s.pc t p }
 
-def init : St :=
-  { rl := .L, cl := .L, regL := [], regR := [], mtx := none, valL := [], valR := [], committed := [], base := [],
+def init (strict : Bool) : St :=
+  { strict := strict, rl := .L, cl := .L, regL := [], regR := [], mtx := none, valL := [], valR := [], committed := [], base := [],
     snap := fun _ => [], lastSeen := fun _ => [], pc := fun _ => .idle }
 
 /-- pcs between `mlk` and `mul` -/
 def Pc.post : Pc → Bool
-  | .wLocked _ | .wRL _ _ | .wF1 _ _ | .wF1d _ _ | .wRb _ _ | .wRbC _ _ | .wRbD _ _ | .wTog _ _
-  | .wCL _ _ _ | .wW1 _ _ _ | .wTogC _ _ _ | .wW2 _ _ | .wF2 _ _ | .wF2d _ _ | .wRf _ _ | .wRfC _ _ | .wRfD _ _ => true
+  | .wA _ _ | .wF1 _ _ | .wF1d _ _ | .wRb _ _ | .wRbC _ _ | .wRbD _ _ | .wWait _ _ _ _
+  | .wF2 _ _ | .wF2d _ _ | .wRf _ _ | .wRfC _ _ | .wRfD _ _ => true
   | _ => false
 
 /-- a redundant seq_cst load by the mutex holder (value consistent with memory) changes nothing -/
@@ -144,6 +158,18 @@ def stutter (s : St) : Ev → Option St
   | .ldCL v => if v = s.cl then some s else none
   | .ldCnt c v => if v = (s.reg c).length then some s else none
   | _ => none
+
+/-- `zeroSeen` of counter `c` -/
+def zOf (c : Side) (zL zR : Bool) : Bool :=
+  match c with
+  | .L => zL
+  | .R => zR
+
+/-- the waiting pc after counter `c` has been observed at zero -/
+def waitSeen (op : OpId) (l : Side) (zL zR : Bool) (c : Side) : Pc :=
+  match c with
+  | .L => .wWait op l true zR
+  | .R => .wWait op l zL true
 
 /-- executable step: `none` = the model does not allow this event here -/
 def step (s : St) (t : Tid) (e : Ev) : Option St :=
@@ -165,32 +191,28 @@ def step (s : St) (t : Tid) (e : Ev) : Option St :=
   -- writer: modify
   | .idle, .call (.modify op) => some (s.setPc t (.wCalled op))
   | .wCalled op, .lock =>
-      if s.mtx = none then some ({ s with mtx := some t, base := s.committed }.setPc t (.wLocked op)) else none
-  | .wLocked op, .ldRL v => if v = s.rl then some (s.setPc t (.wRL op v)) else none
-  | .wRL op l, .fBegin x => if x = l.flip then some (s.setPc t (.wF1 op l)) else none
-  | .wRL op l, .uth => some (s.setPc t (.wRb op l))
+      if s.mtx = none then some ({ s with mtx := some t, base := s.committed }.setPc t (.wA op s.rl)) else none
+  | .wA op l, .fBegin x => if x = l.flip then some (s.setPc t (.wF1 op l)) else none
+  | .wA op l, .uth => some (s.setPc t (.wRb op l))
   | .wF1 op l, .fEnd x v =>
       if x = l.flip ∧ v = s.val x ++ [op] then some ((s.setVal x v).setPc t (.wF1d op l)) else none
   | .wF1 op l, .uth => some (s.setPc t (.wRb op l))
   | .wF1d op l, .uth => some (s.setPc t (.wRb op l))
   | .wF1d op l, .stRL v =>
-      if v = l.flip then some ({ s with rl := v, committed := s.committed ++ [op] }.setPc t (.wTog op l)) else none
+      if v = l.flip then some ({ s with rl := v, committed := s.committed ++ [op] }.setPc t (.wWait op l false false)) else none
   | .wRb op l, .cpBegin x => if x = l.flip then some (s.setPc t (.wRbC op l)) else none
   | .wRbC op l, .cpEnd x v =>
       if x = l.flip ∧ v = s.val l then some ((s.setVal x v).setPc t (.wRbD op l)) else none
   | .wRbD op _, .unlock => if s.mtx = some t then some ({ s with mtx := none }.setPc t (.wExc op false)) else none
-  | .wTog op l, .ldCL v => if v = s.cl then some (s.setPc t (.wCL op l v)) else none
-  | .wCL op l c, .ldCnt c' v =>
-      if c' = c.flip ∧ v = (s.reg c').length then
-        (if v = 0 then some (s.setPc t (.wW1 op l c)) else some s) else none
-  | .wCL _ _ _, .yld => some s
-  | .wW1 op l c, .stCL v => if v = c.flip then some ({ s with cl := v }.setPc t (.wTogC op l c)) else none
-  | .wTogC op l c, .ldCnt c' v =>
-      if c' = c ∧ v = (s.reg c').length then
-        (if v = 0 then some (s.setPc t (.wW2 op l)) else some s) else none
-  | .wTogC _ _ _, .yld => some s
-  | .wW2 op l, .fBegin x => if x = l then some (s.setPc t (.wF2 op l)) else none
-  | .wW2 op l, .uth => some (s.setPc t (.wRf op l))
+  | .wWait op l zL zR, .ldCnt c v =>
+      if v = (s.reg c).length then
+        (if v = 0 then some (s.setPc t (waitSeen op l zL zR c))
+         else if s.strict = true ∧ s.cl = c then none else some s)
+      else none
+  | .wWait _ _ _ _, .yld => some s
+  | .wWait _ _ _ _, .stCL v => some { s with cl := v }
+  | .wWait op l zL zR, .fBegin x => if x = l ∧ zL = true ∧ zR = true then some (s.setPc t (.wF2 op l)) else none
+  | .wWait op l zL zR, .uth => if zL = true ∧ zR = true then some (s.setPc t (.wRf op l)) else none
   | .wF2 op l, .fEnd x v =>
       if x = l ∧ v = s.val x ++ [op] then some ((s.setVal x v).setPc t (.wF2d op l)) else none
   | .wF2 op l, .uth => some (s.setPc t (.wRf op l))
@@ -209,6 +231,6 @@ def step (s : St) (t : Tid) (e : Ev) : Option St :=
 
 def run (s : St) (es : List (Tid × Ev)) : Option St := runFrom step s es
 
-def Reachable (s : St) : Prop := ∃ es, run init es = some s
+def Reachable (s : St) : Prop := ∃ strict es, run (init strict) es = some s
 
 end ConcVerif.LR
